@@ -47,6 +47,8 @@ NI_MODELS = [
     ("sdmx1", "kernel", "SEP", 1),
     ("sdmxg1", "rbf", "SEP", 2),
     ("nldf_j_sdmx", "rbf", "SEP", 1),
+    ("sdmxfull", "rbf", "SEP", 1),
+    ("sdmxfull", "kernel", "NPOL", 1),
 ]
 NI_MOLS = ["H2", "HeH+", "LiH", "H2O", "OH", "O", "H"]
 REORDERED = {"LiH": "HLi", "OH": "HO", "HeH+": "HHe+", "H2O": "H2O_r"}
